@@ -39,6 +39,22 @@ def checks(ctx, rep):
         from . import c16
         _meta, faulted = c16.fault_pool(ctx)
         ctx._pool = list(ctx._pool) + [t for t in faulted if "tracer_error" not in t]
+        # runs in which one posterior update inside local_gp_fitting fails (Cholesky failure): the fallback must keep the freshly selected set
+        from .. import gen, tracer
+        rng = ctx.sub_rng("c15upd")
+        jobs = []
+        # schedules: every 2nd / 3rd / 4th posterior update fails (so that some failures fall on the first fit after a poll, when the log has
+        # grown since the surrogate was last rebuilt), and single failures
+        scheds = [list(range(1, 120, 2)), list(range(0, 120, 3)), list(range(2, 120, 4)), [2], [5], [8]]
+        if not ctx.quick:
+            scheds += [[k] for k in (1, 3, 4, 6, 11, 15)] + [list(range(k, 120, 5)) for k in range(5)]
+        for sched in scheds:
+            for mode in ("det", "decl"):
+                sp = gen.make_spec(rng, D=rng.choice([1, 2, 3]), mode=mode, geom=rng.choice(["box", "tight"]), cons=None, target=rng.choice(["quad", "abs"]))
+                sp["options"] = {"n_search": 32, "max_fun_evals": (sp["D"] + 35) if mode == "det" else 75, "noise_final_samples": 0}
+                jobs.append((sp, {"update_faults": sched}))
+        upd = tracer.cached("c15upd", ctx.seed, ctx.tier, lambda: jobs)
+        ctx._pool = list(ctx._pool) + [t for t in upd if "tracer_error" not in t]
     traces = runlevel.get_pool(ctx)
     reqs, owners = [], []
     stats = {"runs": 0, "neigh": 0, "gpadd": 0, "acq": 0, "neigh_truncated": 0, "noise_sets": 0, "repeated_point_logs": 0, "per_coord_len_scale": 0,
@@ -51,6 +67,8 @@ def checks(ctx, rep):
         case = {"kind": "gp_run", "spec": sp}
         if t.get("gp_faults"):
             case["gp_faults"] = t["gp_faults"]
+        if t.get("update_faults"):
+            case["update_faults"] = t["update_faults"]
         stats["runs"] += 1
         D = t["hdr"]["D"]
         reported = set()
@@ -69,7 +87,8 @@ def checks(ctx, rep):
                     if a != b:
                         viol("fitted_on_selected_set", "gaussian_process_train.py:local_gp_fitting",
                              f"the surrogate returned by the local fit holds {len(b)} training pairs, the selected neighbourhood of the incumbent has {len(a)}"
-                             + (f" (LinAlgError injected at GP.fit invocations {t.get('gp_faults')})" if t.get("gp_faults") else ""))
+                             + (f" (LinAlgError injected at GP.fit invocations {t.get('gp_faults')})" if t.get("gp_faults") else "")
+                             + (f" (LinAlgError injected at posterior update #{t.get('update_faults')} of local_gp_fitting)" if t.get("update_faults") else ""))
             if k == "NEIGH":
                 last_neigh = e
                 stats["neigh"] += 1
@@ -188,7 +207,7 @@ def run(ctx):
 def replay(ctx, data):
     rep = Report()
     from .. import tracer
-    ctx._pool = [tracer.run_traced(data["case"]["spec"], gp_faults=data["case"].get("gp_faults"))]
+    ctx._pool = [tracer.run_traced(data["case"]["spec"], gp_faults=data["case"].get("gp_faults"), update_faults=data["case"].get("update_faults"))]
     ctx._replaying = True
     checks(ctx, rep)
     return rep
